@@ -9,6 +9,7 @@ MOCK = 'include/trompeloeil/mock.hpp'
 LIFE = 'include/trompeloeil/lifetime.hpp'
 RANGE = 'include/trompeloeil/matcher/range.hpp'
 SETP = 'include/trompeloeil/matcher/set_predicate.hpp'
+CORO = 'include/trompeloeil/coro.hpp'
 
 IGNORE_HOOK = [r'^TROMPELOEIL_VERIF_ACCESS\(.*\)$']
 LOCK_DECL = [r'^auto lock = get_lock\(\)$']
@@ -815,5 +816,70 @@ FUNCTIONS += [
         prologue=['let mut p := p0'], epilogue='return p',
         vars={'p': 'p'},
         ret_rules=[(r'^\*this$', 'p')],
+    ),
+]
+
+# ----------------------------------------------------------------------------------------------
+# mocked coroutines (C20): how the CO_ clauses register with the expectation, and the coroutine body.
+# Of each `action` only the part under `if constexpr (valid)` is translated (what precedes it computes `valid` and the
+# static_asserts, which tools/translate.py tabulates for C19); `valid` is a parameter.
+
+CO_SLICE = [(r'(?s)^.*?(if\s+constexpr\s*\(\s*valid\s*\))', r'\1'), (r'return\s*\{\s*std::move\(m\)\.matcher\s*\}\s*;', 'return;'),
+            (r'using\s+\w+\s*=[^;]*;', ''),
+            (r'std::make_shared<yield_expr_list<signature>>\(\)', 'MAKE_SHARED_YIELD_LIST()'),
+            (r'new yield_expr<signature, E>\(std::forward<E>\(e\)\)', 'NEW_YIELD_EXPR(e)'),
+            (r'std::forward<H>\(h\)', 'FWD(h)'), (r'new handler\(', 'NEW_HANDLER('), (r'new ret_handler\(', 'NEW_RET_HANDLER(')]
+CO_EXPR = [(r'^valid$', 'valid'), (r'^!m\.matcher->yield_expressions$', 'st.ylist.isNone')]
+CO_MAKE = (r'^m\.matcher->yield_expressions = MAKE_SHARED_YIELD_LIST\(\)$', 'st := st.fresh')
+
+FUNCTIONS += [
+    dict(
+        name='handle_co_yield', cxx='handle_co_yield::action', file=CORO, module='HandleCoYield',
+        header=r'struct handle_co_yield\s*\{[^{]*?action\(\s*call_modifier<Matcher, modifier_tag, Parent>&&\s*m,\s*E&&\s*e\)',
+        pre=CO_SLICE,
+        lean_sig='{ε η : Type} (valid : Bool) (e : ε) (st0 : CoSt ε η) : CoSt ε η',
+        prologue=['let mut st := st0'], epilogue='return st', void_result='st',
+        vars={'e': 'e'}, typewords=['yield_expr'],
+        expr_rules=CO_EXPR,
+        decl_rules=[(r'^auto expr = NEW_YIELD_EXPR\(e\)$', 'let expr := e')],
+        stmt_rules=[CO_MAKE, (r'^m\.matcher->yield_expressions->push_back\(expr\)$', 'st := st.pushBack expr')],
+    ),
+    dict(
+        name='handle_co_return', cxx='handle_co_return::action', file=CORO, module='HandleCoReturn',
+        header=r'struct handle_co_return\s*\{[^{]*?action\(\s*call_modifier<Matcher, modifier_tag, Parent>&&\s*m,\s*H&&\s*h\)',
+        pre=CO_SLICE,
+        lean_sig='{ε η : Type} (valid : Bool) (h : η) (st0 : CoSt ε η) : CoSt ε η',
+        prologue=['let mut st := st0'], epilogue='return st', void_result='st',
+        vars={'h': 'h'},
+        expr_rules=CO_EXPR,
+        stmt_rules=[CO_MAKE,
+                    (r'^m\.matcher->return_handler_obj\.reset\(NEW_HANDLER\(FWD\(h\), m\.matcher->yield_expressions\)\)$',
+                     'st := st.setHandler h')],
+    ),
+    dict(
+        name='handle_co_throw', cxx='handle_co_throw::action', file=CORO, module='HandleCoThrow',
+        header=r'struct handle_co_throw\s*\{[^{]*?action\(\s*call_modifier<Matcher, modifier_tag, Parent>&&\s*m,\s*H&&\s*h\)',
+        pre=CO_SLICE,
+        lean_sig='{ε η : Type} (valid : Bool) (h : η) (st0 : CoSt ε η) : CoSt ε η',
+        prologue=['let mut st := st0'], epilogue='return st', void_result='st',
+        vars={'h': 'h'},
+        expr_rules=CO_EXPR,
+        # the thrower is wrapped (co_throw_handler_t) and installed exactly like a CO_RETURN handler
+        decl_rules=[(r'^auto handler = throw_handler_t\(FWD\(h\)\)$', 'let handler := h')],
+        stmt_rules=[CO_MAKE,
+                    (r'^m\.matcher->return_handler_obj\.reset\(NEW_RET_HANDLER\(std::move\(handler\), m\.matcher->yield_expressions\)\)$',
+                     'st := st.setHandler handler')],
+    ),
+    dict(
+        name='co_body', cxx='co_return_handler_t::call', file=CORO, module='CoBody',
+        header=r'\n\s*call\(\s*trace_agent&[^,]*,\s*call_params_type_t<Sig>&\s*params\)\s*override',
+        pre=[(r'using\s+\w+\s*=[^;]*;', ''), (r'requires\s*\{[^}]*\}', 'CAN_YIELD'),
+             (r'co_yield\s+(\w+)\.expr\(params\)\s*;', r'CO_YIELD(\1);'), (r'co_return\s+func\(params\)\s*;', 'CO_RETURN();'),
+             (r'\*yields', 'yields')],
+        lean_sig='{ε : Type} (canYield : Bool) (yields : List ε) : List (CoAct ε)',
+        prologue=['let mut acts : List (CoAct ε) := []'], epilogue='return acts',
+        vars={'yields': 'yields'},
+        expr_rules=[(r'^CAN_YIELD$', 'canYield')],
+        stmt_rules=[(r'^CO_YIELD\((\w+)\)$', r'acts := acts ++ [CoAct.yield \1]'), (r'^CO_RETURN\(\)$', 'acts := acts ++ [CoAct.ret]')],
     ),
 ]
